@@ -20,7 +20,7 @@ def point_universe(alpha):
     us = dt.timedelta(microseconds=1)
     MISSING = object()
     tag_a = [MISSING, None, "", x, x.upper() if x.upper() != x else x + "X", x + "y"]
-    field_v = [MISSING, None, 0, -1, 1, 1.5, math.inf]
+    field_v = [MISSING, None, 0, -1, 1, 1.5, math.inf, 2**53, 2**53 + 1]
     meas = ["m", "", "n"]
     times = [t1 - us, t1, t1 + us]
     U = []
@@ -55,6 +55,10 @@ def c09_atoms(alpha):
         ("cmp", "time", (), "<", t1 - us),
         ("cmp", "time", (), "==", (t1 - us).astimezone(dt.timezone(dt.timedelta(hours=-8)))),
         ("cmp", "fields", ("v",), "<", math.inf),
+        ("cmp", "fields", ("v",), "==", 2**53 + 1),
+        ("cmp", "fields", ("v",), "<", 2**53 + 1),
+        ("cmp", "fields", ("v",), ">=", 2**53 + 1),
+        ("cmp", "fields", ("v",), "!=", 2**53),
         ("cmp", "fields", ("v",), ">=", math.inf),
         ("cmp", "fields", ("v",), "==", 0),
         ("cmp", "fields", ("v",), "<", 0),
@@ -163,7 +167,7 @@ class C09(univ.UnivCheck):
         return (
             "breadth-first closure of the query term algebra under the real constructors ~ & | : depth<=1 over all "
             "atoms, depth<=2 over 6/10 representatives, depth<=3 over 3 representatives (thorough); every term is "
-            "evaluated on every point of a 378-point universe (tag a in {missing,None,'',x,X,xy} x field v in "
+            "evaluated on every point of a 486-point universe (tag a in {missing,None,'',x,X,xy} x field v in "
             "{missing,None,0,-1,1,1.5,inf} x 3 measurements x 3 adjacent-microsecond times) against the independent "
             "reference evaluator; no exception may escape and the value must be a bool"
         )
@@ -297,6 +301,45 @@ class C09(univ.UnivCheck):
                         out.append(viol("query-meaning", f"C09|depends-on-evaluation-history|shape={qast.shape(a)}", observed=r, expected=exp,
                                         kind="input", detail=f"order={order}") | {"input": (a, rp)})
                         break
+        out += self.deep_chains(atoms)
+        return out
+
+    def deep_chains(self, atoms):
+        """Left-nested chains of 250 operands - beyond any small-depth fast path or recursion guard.
+
+        All operands but two are constant fillers (always False for |, always True for &), so the value of the
+        chain is exactly m1 | m2 (or m1 & m2) for two designated operands placed at both ends; every ordered pair
+        of a set of map()-atoms and hashable atoms with differing truth vectors is used as (m1, m2).
+        """
+        import functools
+
+        out = []
+        maps = [a for a in atoms if qast.has_map(a)][:4]
+        plain = [("cmp", "tags", ("a",), "==", self.alpha.x), ("cmp", "fields", ("v",), "<", 1)]
+        never = ("test", "tags", ("b",), "never", ())
+        always = ("test", "tags", ("b",), "always", ())
+        picks = maps + plain
+        for m1 in picks:
+            for m2 in picks:
+                if m1 is m2:
+                    continue
+                for name, filler, fold_real, fold_ref in (
+                    ("or", never, lambda a, b: a | b, lambda a, b: a or b),
+                    ("and", always, lambda a, b: a & b, lambda a, b: a and b),
+                ):
+                    sub = [m1] + [filler] * 248 + [m2]
+                    q = functools.reduce(fold_real, [qast.build(a) for a in sub])
+                    for i, rp in enumerate(self.U):
+                        exp = fold_ref(qast.ref_eval(m1, rp), qast.ref_eval(m2, rp))
+                        try:
+                            r = q(self.points[i])
+                        except Exception as e:  # noqa
+                            r = type(e).__name__
+                        if r is not exp:
+                            out.append(viol("query-meaning", f"C09|depends-on-evaluation-history|deep-chain-{name}", observed=r, expected=exp,
+                                            kind="input", detail=f"250 operands, left-nested: {qast.pretty(m1)} {name} 248 fillers {name} {qast.pretty(m2)}")
+                                       | {"input": (("noop", "tags"), rp)})
+                            break
         return out
 
     def run(self, log=print):
